@@ -122,6 +122,12 @@ def parseMOp (name : String) (args : List String) : Option (MOp Arg) :=
   | "orins", [k, x] => match unhex k, parseArg x with
     | some k, some x => some (.orInsert k.toList x)
     | _, _ => none
+  | "orinsw", [k, x] => match unhex k, parseArg x with
+    | some k, some x => some (.orInsert k.toList x)
+    | _, _ => none
+  | "orinswk", [k, x] => match unhex k, parseArg x with
+    | some k, some x => some (.orInsert k.toList x)
+    | _, _ => none
   | "splitoff", [n] => n.toNat?.map .splitOff
   | "drain", [a, b] => match a.toNat?, b.toNat? with
     | some a, some b => some (.drain a b)
